@@ -226,6 +226,22 @@ def tie_audit(tie, res, rest_ok):
                             'Sgz.Model.Reblock', 'Sgz.Model.Writer', 'Sgz.Model.Window', 'Sgz.Model.Derived', 'Sgz.Model.Header', 'Sgz.Model.Container',
                             'Sgz.Model.HeaderReads', 'Sgz.Model.Version', 'Sgz.Model.Emul', 'Sgz.Model.Irregular', 'Sgz.Model.Xarray'], cwd=LEAN_DIR,
                            stdout=subprocess.PIPE, stderr=subprocess.STDOUT, text=True, timeout=1800)
+        # the translator is validated, not just trusted: every generated definition is evaluated by Lean at random parameter
+        # values and compared with Python's own evaluation of the source expression it was derived from
+        vsrc, vexp = translate.validation(rng_seed=int(os.environ.get('VERIF_SEED', '0') or 0))
+        with tempfile.NamedTemporaryFile('w', suffix='.lean', dir=LEAN_DIR, delete=False) as f:
+            f.write(vsrc)
+            vtmp = f.name
+        try:
+            pv = subprocess.run(['lake', 'env', 'lean', vtmp], cwd=LEAN_DIR, stdout=subprocess.PIPE,
+                                stderr=subprocess.STDOUT, text=True, timeout=1800)
+        finally:
+            os.unlink(vtmp)
+        vout = [l.strip() for l in pv.stdout.splitlines() if l.strip()]
+        vbad = [f'{e[0]} {e[1]}: Lean {o}, Python {e[2]}' for e, o in zip(vexp, vout) if e[2] != o]
+        if b.returncode == 0 and len(vout) != len(vexp):
+            vbad.append(f'{len(vout)} outputs for {len(vexp)} evaluations: {pv.stdout[-300:]}')
+        res['translator'].update({'validated_evaluations': len(vexp), 'validation_mismatches': vbad[:5]})
         src = open(os.path.join(LEAN_DIR, 'Sgz', 'Tie', 'Source.lean')).read()
         src += '\n' + ''.join(f'#print axioms {t}\n' for t in tie)
         with tempfile.NamedTemporaryFile('w', suffix='.lean', dir=LEAN_DIR, delete=False) as f:
@@ -247,6 +263,9 @@ def tie_audit(tie, res, rest_ok):
     for t in tie:
         if b.returncode != 0:
             res['problems'].append((t, 'generated definitions do not compile: ' + b.stdout[-600:]))
+        elif vbad:
+            res['problems'].append((t, 'translator validation failed (a generated definition does not evaluate like its '
+                                       'source expression): ' + '; '.join(vbad[:2])))
         elif t not in seen:
             res['problems'].append((t, 'tie theorem missing: ' + out[-600:]))
         elif not seen[t] <= ALLOWED_AXIOMS:
@@ -355,6 +374,8 @@ def finish(ctx, audit, level_note_assumptions, explanation, extra_cov=None):
         cov['note'] = 'no theorem listed in lean/obligations.json for this property'
     if 'leanchecker' in audit:
         cov['leanchecker'] = audit['leanchecker']
+    if 'translator' in audit:
+        cov['translator'] = audit['translator']
     if extra_cov:
         cov.update(extra_cov)
     ev = {'property_id': ctx.pid, 'tier': ctx.tier, 'seed': ctx.seed, 'level': 'proof', 'coverage': cov,
